@@ -1013,7 +1013,7 @@ func (s *State) evalForInteger(fe *ast.ForExpression, start *int64, end int64, n
 				return s.Errorf("for loop unexpected control type %s", r.ControlType.String())
 			}
 		default:
-			lastEval = nextEval
+			lastEval = object.CopyRegister(nextEval) // the value now, not the register: it changes with the next iteration.
 		}
 	}
 	return object.CopyRegister(lastEval) // the loop's register is about to be released and reused.
